@@ -25,6 +25,7 @@ def make(bootstrap):
         w: int = 0
         z: int = Attr(default=7, invalidated_by=["x"])
         xs: List[int] = []
+        nd: int  # no default, nothing depends on it explicitly (only the '*' dependant)
 
         @spec_property(cache=True, invalidated_by=["x"])
         def p(self):  # cached, depends on x
@@ -39,7 +40,7 @@ def make(bootstrap):
         @spec_property(cache=True, invalidated_by="*")
         def star(self):  # wildcard: any attribute
             bump("star")
-            return self.x + self.w
+            return self.x + self.w + getattr(self, "nd", 0)
 
         @spec_property(cache=True, invalidated_by=["xs"])
         def sx(self):  # depends on a container attribute (element helpers)
@@ -107,13 +108,14 @@ DERIVED = ["p", "q", "star", "sx", "end", "pu", "po", "digest"]
 def expected(m, cname):
     x, w, xs = m.x, m.w, m.xs
     um = m.__dict__.get("um", 0)
-    d = {"p": x * 2, "q": x * 2 + 1, "star": x + w, "sx": len(xs), "end": x + 101, "pu": um * 3, "po": x * 3, "digest": m.bal + 1}
+    nd = getattr(m, "nd", 0)
+    d = {"p": x * 2, "q": x * 2 + 1, "star": x + w + nd, "sx": len(xs), "end": x + 101, "pu": um * 3, "po": x * 3, "digest": m.bal + 1}
     if cname == "GS":
         d["r"] = w * 5
     return d
 
 
-MUTS = ["bad_bal", "setattr_bal", "setattr_x", "delattr_x", "with_x", "transform_x", "reset_x", "update_x", "setattr_w", "with_w", "update_xw", "with_x_item", "setattr_um", "setattr_z", "bad_x", "bad_w", "reset_all", "without_x_item_missing"]
+MUTS = ["del_nd", "reset_nd", "setattr_nd", "bad_bal", "setattr_bal", "setattr_x", "delattr_x", "with_x", "transform_x", "reset_x", "update_x", "setattr_w", "with_w", "update_xw", "with_x_item", "setattr_um", "setattr_z", "bad_x", "bad_w", "reset_all", "without_x_item_missing"]
 
 
 def make_h(fam, cname, mut):
@@ -125,6 +127,7 @@ def make_h(fam, cname, mut):
         if oz:
             o.z = z1  # assigned after construction: must survive unrelated mutations
         derived = DERIVED + (["r"] if cname == "GS" else [])
+        o.nd = 4
         o.audit = "checked"  # assigned value of an attribute invalidated_by bal
         for bit, name in ((rp, "p"), (rq, "q"), (rs, "star"), (rsx, "sx"), (rend, "end"), (rpu, "pu"), (rp, "po"), (rq, "digest")):
             if bit:
@@ -173,7 +176,17 @@ def make_h(fam, cname, mut):
                 o.z = v
                 m, changed = o, {"z"}
             elif mut == "reset_all":
-                m, changed = o.reset(**kw), {"x", "w", "z", "xs", "bal"}
+                m, changed = o.reset(**kw), {"x", "w", "z", "xs", "bal", "nd"}
+            elif mut == "setattr_nd":
+                assume(inplace)
+                o.nd = v
+                m, changed = o, {"nd"}
+            elif mut == "del_nd":
+                assume(inplace)
+                del o.nd
+                m, changed = o, {"nd"}
+            elif mut == "reset_nd":
+                m, changed = o.reset_nd(**kw), {"nd"}
             elif mut == "setattr_bal":
                 assume(inplace and v >= 0)
                 o.bal = v
